@@ -89,15 +89,25 @@ def run_composition(path: str, scen: str, comp: Tuple[int, ...], suffix: str):
 
     rp, rec = fresh(path, scen, suffix)
     times = [int(rp.s.sim_time)]
+    from nrel.hive.reporting.handler.vehicle_charge_events_handler import VehicleChargeEventsHandler
+
+    channel = [h for h in rp.e.reporter.handlers if isinstance(h, VehicleChargeEventsHandler)]
+    windows: List[tuple] = []
     for k in comp:
         res = hive_cosim.crank(rp, k)
         rp = res.runner_payload
+        if channel:
+            # the co-simulation's own event channel, used the way a grid co-simulation does: read the window, then clear it
+            ev = channel[0].get_events()
+            windows.append(tuple(zip(*(list(ev[c]) for c in ("vehicle_id", "sim_time_start", "sim_time_end", "energy", "units")))))
+            channel[0].clear()
         if int(res.sim_time) != int(rp.s.sim_time):
             raise AssertionError("CrankResult.sim_time differs from the payload's clock")
         times.append(int(rp.s.sim_time))
         if SCENS[scen][1]:
             g = get_instruction_generator(rp, Stateful)
             rp = update_instruction_generator(rp, g)  # re-inject unchanged, as a co-simulation driver would
+    run_composition.windows = windows  # (side channel for the caller; run_composition's signature is used by the replay)
     return trace(rec), times
 
 
@@ -113,6 +123,8 @@ def _shard(shard) -> Dict[str, Any]:
             conf = yaml.safe_load(f)
         step = int(conf["sim"]["timestep_duration_seconds"])
         ref, _ = run_composition(path, scen, (n,), "ref")
+        ref_channel = [e for w in run_composition.windows for e in w]
+        out["channel_events"] = len(ref_channel)
         out["runs"] += 1
         rpdata = {"scenario": scen, "n": n, "odd_end": odd_end}
         if len(ref) != n:
@@ -145,6 +157,9 @@ def _shard(shard) -> Dict[str, Any]:
                 k = next((i for i, (a, b) in enumerate(zip(tr, ref)) if a != b), min(len(tr), len(ref)))
                 what = "length" if k >= min(len(tr), len(ref)) else ("clock" if tr[k][0] != ref[k][0] else "state" if tr[k][1] != ref[k][1] else "events")
                 out["findings"].setdefault(("composition", scen, what), (f"{scen}: crank calls {list(comp)} differ from one crank({n}) at step {k+1} ({what})", dict(rpdata, composition=list(comp))))
+            got_channel = [e for w in run_composition.windows for e in w]
+            if got_channel != ref_channel:
+                out["findings"].setdefault(("charge_event_channel", scen), (f"{scen}: the co-simulation charge-event channel, read and cleared after each of the calls {list(comp)}, delivers {len(got_channel)} events in all; one crank({n}) delivers {len(ref_channel)}" + (" (events delivered again after clear())" if len(got_channel) > len(ref_channel) else ""), dict(rpdata, composition=list(comp))))
             exp_times = [0] + list(itertools.accumulate(k * step for k in comp))
             if times != exp_times:
                 out["findings"].setdefault(("clock_between_calls", scen), (f"{scen}: clock after calls {list(comp)} reads {times}, expected {exp_times}", dict(rpdata, composition=list(comp))))
@@ -171,6 +186,25 @@ def _shard(shard) -> Dict[str, Any]:
             end = int(final.e.config.sim.end_time)
             if not (int(final.s.sim_time) >= end and int(final.s.sim_time) - step < end):
                 out["findings"].setdefault(("runner_interval", scen), (f"{scen}: run() stopped at {int(final.s.sim_time)} with end_time {end} and step {step}", dict(rpdata, composition=["run"])))
+            # a run that is begun by co-simulation calls and finished by the batch runner covers the same interval
+            for a in (1, n // 2):
+                rp, rec = fresh(path, scen, f"mixed{a}")
+                from nrel.hive.app import hive_cosim as _hc
+
+                rp = _hc.crank(rp, a).runner_payload
+                with quiet_stdout():
+                    err = sys.stderr
+                    sys.stderr = io.StringIO()
+                    try:
+                        final2 = LocalSimulationRunner.run(rp)
+                    finally:
+                        sys.stderr = err
+                out["runs"] += 1
+                tr = trace(rec)
+                if not (int(final2.s.sim_time) >= end and int(final2.s.sim_time) - step < end):
+                    out["findings"].setdefault(("runner_interval", scen, "after_crank"), (f"{scen}: crank({a}) followed by run() stopped at {int(final2.s.sim_time)} with end_time {end} and step {step} ({len(tr)} steps in all)", dict(rpdata, composition=[a, "run"])))
+                elif tr != ref:
+                    out["findings"].setdefault(("runner_run", scen, "after_crank"), (f"{scen}: crank({a}) followed by run() differs from crank({n})", dict(rpdata, composition=[a, "run"])))
             # step() until it refuses
             rp, rec = fresh(path, scen, "stepper")
             count = 0
